@@ -61,3 +61,82 @@ def non_samples_and_duplicates_rejected(s0: int, s1: int, u: int, v: int) -> boo
     except ValueError:
         return bad
     return not bad
+
+
+# ---- Tree.rf_distance (pure Python over the tree's nodes / children / samples) -----------------------------------
+# rooted shapes on leaves 0,1,2 (+ internal 3, root 4); parent maps
+_SHAPES = [
+    {0: 3, 1: 3, 3: 4, 2: 4},   # ((0,1),2)
+    {0: 3, 2: 3, 3: 4, 1: 4},   # ((0,2),1)
+    {1: 3, 2: 3, 3: 4, 0: 4},   # ((1,2),0)
+    {0: 4, 1: 4, 2: 4},         # star
+]
+
+
+class FakeTree:
+    rf_distance = tskit.Tree.rf_distance
+    _get_sample_sets = tskit.Tree._get_sample_sets
+
+    def __init__(self, parent, sample_nodes, extra_root=False):
+        self.parent_map = dict(parent)
+        self.sample_nodes = list(sample_nodes)
+        roots = {v for v in self.parent_map.values() if v not in self.parent_map}
+        self.num_roots = len(roots) + (1 if extra_root else 0)
+        self.root = min(roots)
+
+    def children(self, u):
+        return sorted(c for c, p in self.parent_map.items() if p == u)
+
+    def is_sample(self, u):
+        return u in self.sample_nodes
+
+    def samples(self, u=None):
+        return iter(self.sample_nodes)
+
+    def nodes(self, root=None, order="preorder"):
+        out = []
+
+        def visit(u):
+            for c in self.children(u):
+                visit(c)
+            out.append(u)
+        visit(self.root)
+        if order != "postorder":
+            out.reverse()
+        return iter(out)
+
+
+def _clades(parent, sample_nodes):
+    nodes = set(parent) | set(parent.values())
+    out = set()
+    for u in nodes:
+        below = set()
+        for s in sample_nodes:
+            v = s
+            while v is not None:
+                if v == u:
+                    below.add(s)
+                    break
+                v = parent.get(v)
+        out.add(frozenset(below))
+    return out
+
+
+def rf_distance_definition(sa: int, sb: int, other_samples: int, two_roots: bool) -> bool:
+    """
+    Tree.rf_distance: the number of sample bipartitions (clades) present in one rooted tree but not the other; ValueError
+    if either tree has several roots or the trees have different sample nodes (both documented).
+    pre: 0 <= sa <= 3 and 0 <= sb <= 3 and 0 <= other_samples <= 2
+    post: _
+    """
+    samples_a = [0, 1, 2]
+    samples_b = ([0, 1, 2], [0, 1], [0, 1, 3])[other_samples]
+    a = FakeTree(_SHAPES[sa], samples_a)
+    b = FakeTree(_SHAPES[sb], samples_b, extra_root=two_roots)
+    try:
+        d = a.rf_distance(b)
+    except ValueError:
+        return two_roots or set(samples_a) != set(samples_b)
+    if two_roots or set(samples_a) != set(samples_b):
+        return False
+    return d == len(_clades(_SHAPES[sa], samples_a) ^ _clades(_SHAPES[sb], samples_b)) and d == b.rf_distance(a)
